@@ -273,6 +273,8 @@ Definition F_i4 := 14. Definition F_i5 := 15. Definition F_i6 := 16. Definition 
 (* fields that do not exist before the call *)
 Definition F_new0 := 30. Definition F_new1 := 31. Definition F_new2 := 32. Definition F_new3 := 33.
 Definition F_new4 := 34. Definition F_new5 := 35.
+(* SlidingBoundariesArchive: the entries of the solution buffer (fields of the last buffered entry) *)
+Definition F_buf0 := 40. Definition F_buf1 := 41. Definition F_buf2 := 42. Definition F_buf3 := 43.
 
 Definition init_self : env :=
   map (fun b => (b, fresh_val b)) (seq 0 n_store) ++ map (fun b => (3 + b, fresh_val b)) (seq n_store (n_internal - n_store)).
@@ -438,9 +440,9 @@ Definition has_extra_arg (e : ep) (nargs : nat) : bool := Nat.eqb nargs (last (a
     [C12-required copy; unchanged code appends the validated dict itself, i.e. the caller's arrays / row views: F4] *)
 Definition sliding_buffer_entry (copy : bool) (sol obj meas : var) (ev : option var) : list instr :=
   (if copy then [ICopy (T 70) sol; ICopy (T 71) meas] else [IMove (T 70) sol; IMove (T 71) meas])
-  ++ [ISetSelf F_new0 (T 70); ISetSelf F_new1 obj; ISetSelf F_new2 (T 71)]
+  ++ [ISetSelf F_buf0 (T 70); ISetSelf F_buf1 obj; ISetSelf F_buf2 (T 71)]
   ++ match ev with
-     | Some e => (if copy then [ICopy (T 72) e] else [IMove (T 72) e]) ++ [ISetSelf F_new3 (T 72)]
+     | Some e => (if copy then [ICopy (T 72) e] else [IMove (T 72) e]) ++ [ISetSelf F_buf3 (T 72)]
      | None => []
      end.
 
@@ -626,7 +628,7 @@ Definition prog_gen (copy : bool) (e : ep) (variant nargs : nat) : list instr :=
       ++ sliding_buffer_entry copy 0 1 2 (opt_ev e nargs 3)        (* 449 *)
       ++ (if Nat.eqb variant 1 then
             (* _remap 340-391: cur_data = store.data() (fresh), buffer entries concatenated (383: fresh), re-added *)
-            [IGetSelf (T 140) F_new0; IGetSelf (T 141) F_new1; IGetSelf (T 142) F_new2;
+            [IGetSelf (T 140) F_buf0; IGetSelf (T 141) F_buf1; IGetSelf (T 142) F_buf2;
              IOp (T 143) [T 140] 50; IOp (T 144) [T 141] 50; IOp (T 145) [T 142] 50;
              IOp (T 0) [T 145] 16; IGetSelf (T 146) F_occupied; IInplace (T 146) [] 51]       (* clear() 386 *)
             ++ store_write (T 0) [(F_solution, T 143); (F_objective, T 144); (F_measures, T 145)]
